@@ -24,14 +24,16 @@ RULE = (
     'given|inferred) for rebatched_args called directly, or (size sequence, #columns, '
     'kind, fn_batch_size, batch_size) / (rows, n) for apply / select / batch pipelines. '
     'quick: ALL size sequences of length <= 5 over sizes 0..6 x targets 1..7 x 1..3 '
-    'columns x {list, tuple, ndarray} x pad in {None, -1}; num_columns given AND inferred '
-    'for length <= 4, for length 5 each (sequence, target, columns, kind) runs '
-    '(pad=None, infer=p) and (pad=-1, infer=not p) with p the parity of '
-    'sum(sizes)+target+columns (pruned for the 60 s budget; pad and inference touch '
-    'disjoint code: stream head vs final flush); plus 2-D arrays and per-column mixed '
+    'columns x {list, tuple, ndarray}; for length <= 4 every such case runs with pad in '
+    '{None, -1} x num_columns {given, inferred}; for length 5 every case runs ONE of '
+    'these four (pad, infer) settings, rotating with (sum(sizes)+target+columns) mod 4 '
+    '(pruned for the 60 s budget: pad only acts in the final flush, inference only at '
+    'the stream head, and every carry-over state is already reached by length <= 4); '
+    'plus 2-D arrays and per-column mixed '
     'kinds for length <= 3, pipelines over all sequences of length <= 3 over sizes 0..4, '
     'and seeded random longer streams. thorough: length <= 5 fully crossed, length 6 with '
-    'the parity rotation, random sequences to length 40 / sizes to 50. non-trivial = >= 2 '
+    'two of the four (pad, infer) settings per case (both pad values, both inference '
+    'modes), random sequences to length 40 / sizes to 50. non-trivial = >= 2 '
     'input batches and some size != target; distinct = (api, size sequence, target) '
     '(column/kind/pad/infer variants of one (sequence, target) are counted as '
     'evaluations, not as distinct cases)')
@@ -259,11 +261,18 @@ def _direct_one(ctx, cnt, case, batches):
   ctx.violation(kind_, case, detail, mechanism=mech)
 
 
-def _variants(length, sizes, target, cols, tier_full):
-  if tier_full:
-    return ((None, True), (None, False), (-1, True), (-1, False))
-  p = (sum(sizes) + target + cols) % 2 == 0
-  return ((None, p), (-1, not p))
+_ALL_VARIANTS = ((None, True), (-1, False), (None, False), (-1, True))
+
+
+def _variants(length, sizes, target, cols, full):
+  """(pad, infer) settings to run. full: True = all 4, 2 / 1 = rotation."""
+  if full is True:
+    return _ALL_VARIANTS
+  r = sum(sizes) + target + cols
+  if full == 2:
+    p = r % 2 == 0
+    return ((None, p), (-1, not p))
+  return (_ALL_VARIANTS[r % 4],)
 
 
 def _check_inputs_unchanged(ctx, cnt, sizes, cols, kind, batches):
@@ -589,10 +598,11 @@ def plan(tier, seed):
   if thorough:
     # length 6 with the parity rotation, split by the first two sizes.
     for p in itertools.product(range(7), repeat=2):
-      specs.append({'mode': 'sweep', 'length': 6, 'prefix': list(p), 'full': False})
+      specs.append({'mode': 'sweep', 'length': 6, 'prefix': list(p), 'full': 2})
   # length 5: split by the first two sizes (49 chunks).
   for p in itertools.product(range(7), repeat=2):
-    specs.append({'mode': 'sweep', 'length': 5, 'prefix': list(p), 'full': thorough})
+    specs.append({'mode': 'sweep', 'length': 5, 'prefix': list(p),
+                  'full': True if thorough else 1})
   for p in range(7):
     specs.append({'mode': 'sweep', 'length': 4, 'prefix': [p], 'full': True})
   specs.append({'mode': 'sweep_small', 'full': True})
@@ -612,9 +622,9 @@ def plan(tier, seed):
   nrand = 48 if thorough else 4
   for i in range(nrand):
     specs.append({'mode': 'direct_random', 'rseed': seed, 'index': i,
-                  'count': 9000 if thorough else 1200})
+                  'count': 20000 if thorough else 1200})
     specs.append({'mode': 'pipe_random', 'rseed': seed, 'index': i,
-                  'count': 5000 if thorough else 500})
+                  'count': 8000 if thorough else 500})
   return specs
 
 
